@@ -155,7 +155,8 @@ type Config struct {
 	MaxThreads     int
 	MaxPreempt     int
 	Thorough       bool
-	MaxViolations  int // stop exploring a harness after this many violations (0 = 20)
+	Sem            chan struct{} // global limit on concurrently running paths
+	MaxViolations  int           // stop exploring a harness after this many violations (0 = 20)
 }
 
 type Decision struct {
@@ -166,10 +167,10 @@ type Decision struct {
 }
 
 type InputRec struct {
-	Name string   `json:"name"`
-	Kind string   `json:"kind"` // bool,int8..uint64,float32,float64,bytes,string,choice
-	N    int      `json:"n,omitempty"`
-	Vals []uint64 `json:"vals"` // concrete model values (bit patterns); one per element
+	Name  string   `json:"name"`
+	Kind  string   `json:"kind"` // bool,int8..uint64,float32,float64,bytes,string,choice
+	N     int      `json:"n,omitempty"`
+	Vals  []uint64 `json:"vals"` // concrete model values (bit patterns); one per element
 	terms []*Term
 }
 
@@ -221,32 +222,32 @@ type HarnessResult struct {
 // ---------------------------------------------------------------- worker / run
 
 type Worker struct {
-	P       *Program
-	tt      *TermTable
-	solver  *Solver
-	globals map[*ssa.Global]*value
-	inited  bool
-	cfg     *Config
+	P         *Program
+	tt        *TermTable
+	solver    *Solver
+	globals   map[*ssa.Global]*value
+	inited    bool
+	cfg       *Config
 	wantModel bool
 }
 
 type Run struct {
-	cfg      *Config
-	w        *Worker
-	i        *interpreter
-	prefix   []Decision
-	pos      int
-	taken    []Decision // decisions of this run (prefix + new)
-	newPref  [][]Decision
-	inputs   []InputRec
-	observes []obsRec
-	asserts  map[string]int
-	covers   map[string]int
-	instrs   map[*ssa.Function]int64
-	intrins  map[string]int
-	pcLen    int
-	forks    int
-	seq      int
+	cfg         *Config
+	w           *Worker
+	i           *interpreter
+	prefix      []Decision
+	pos         int
+	taken       []Decision // decisions of this run (prefix + new)
+	newPref     [][]Decision
+	inputs      []InputRec
+	observes    []obsRec
+	asserts     map[string]int
+	covers      map[string]int
+	instrs      map[*ssa.Function]int64
+	intrins     map[string]int
+	pcLen       int
+	forks       int
+	seq         int
 	knownHit    string
 	cutBy       string
 	pendingViol *Violation
@@ -258,7 +259,7 @@ type Run struct {
 
 func (r *Run) freshAux(name string, s Sort) *Term {
 	r.naux++
-	return r.w.tt.Var(s, fmt.Sprintf("aux%d_%s", r.naux, name))
+	return r.w.tt.Var(s, fmt.Sprintf("aux%d_%s_%s", r.naux, name, sortTag(s)))
 }
 
 type obsRec struct {
@@ -452,6 +453,7 @@ func (i *interpreter) decide(cond *Term, what string) bool {
 		return d.Taken
 	}
 	r.pos++
+	s.What = what + " @ " + i.whereAmI()
 	vt := s.CheckWith(cond)
 	if vt == Unknown {
 		panic(unsupported("solver unknown at " + what + ": " + LastSolverError))
@@ -672,7 +674,13 @@ func Explore(P *Program, fnName string, cfg *Config) (*HarnessResult, error) {
 						return
 					}
 				}
+				if cfg.Sem != nil {
+					cfg.Sem <- struct{}{}
+				}
 				res, run := w.runPathSafe(fn, prefix, wantModel)
+				if cfg.Sem != nil {
+					<-cfg.Sem
+				}
 				mu.Lock()
 				active--
 				stack = append(stack, run.newPref...)
